@@ -18,14 +18,19 @@ def judge_case(case):
 
 def run(ctx):
     ctx.cov["rule"] = (
-        "pair lattice x 12 settings; for every pair the harness scans the text's own OKLCH lightness line (L = i/4096, "
+        "pair lattice plus the dark-tinted band (text with 8-bit channels of 1..15 just below a mid-tone background's thresholds) "
+        "x 12 settings; for every pair the harness scans the text's own OKLCH lightness line (L = i/4096, "
         "reference conversion with per-channel clip, distinct 8-bit colours) for a witness: dE00 <= 1.5 to the text and "
         "ratio >= minimum + 0.05. Only (pair, setting) cases with a witness are judged: success in that mode and "
         "dE00(original, result) <= 2.0. non-trivial = (pair, setting) cases with a witness."
     )
     from mc.lattice import pair_lattice
 
+    from mc.lattice import dark_tinted_band
+
     pl = [(t, b) for t, b, tag in pair_lattice(ctx.tier, ctx.phase)]
+    have = set(pl)
+    pl += [(t, b) for t, b, tag in dark_tinted_band(ctx.tier, ctx.phase) if (t, b) not in have]
     sweep.install_chain_logger()
     n = nw = 0
     sides = {}
